@@ -346,7 +346,36 @@ def d5(cx: Cx, ob: Ob) -> None:
         ob.site(f"{where(fn, header[0][1].line)} {fn.qualname}", "writerow(header)")
         if body and header[0][1].line > body[0][1].line:
             ob.violate(fn.qualname, where(fn, header[0][1].line), "the header row is written after the data rows", detail="header-order")
-    if not body:
+    bulk = [(c, ev, ctx) for c, ev, ctx in s.calls("writerows")]
+    for c, ev, ctx in bulk[:1]:
+        src = c[2][0] if c[2] else None
+        ob.site(f"{where(fn, ev.line)} {fn.qualname}", show(c)[:70])
+        if op(src) == "comp" and len(src[3]) == 1:
+            tgt, it, ifs = src[3][0]
+            row = src[2]
+            if op(row) == "list":
+                row = ("tuple", row[1])
+            if it != ("attr", conv, "records"):
+                ob.violate(fn.qualname, where(fn, ev.line), f"rows are produced from `{show(it)[:40]}`, not converter.records", detail="source")
+            if ifs:
+                ob.violate(fn.qualname, where(fn, ev.line), "rows are written only conditionally", detail="filter")
+            if row != ("tuple", (("attr", tgt, "prefix"), ("attr", tgt, "uri_prefix"))):
+                ob.violate(fn.qualname, where(fn, ev.line), f"row is `{show(src[2])[:50]}`, not (record.prefix, record.uri_prefix)", detail="columns")
+        elif op(src) == "call" and callee_name(src) == "items" and op(src[1]) == "attr":
+            m = src[1][1]
+            if m == ("comp", "dict", ("kv", ("attr", ("bv", 0), "prefix"), ("attr", ("bv", 0), "uri_prefix")), ()):
+                pass
+            elif op(m) == "comp" and m[1] == "dict" and len(m[3]) == 1 and m[3][0][1] == ("attr", conv, "records") and not m[3][0][2] and m[2] == ("kv", ("attr", m[3][0][0], "prefix"), ("attr", m[3][0][0], "uri_prefix")):
+                pass  # converter.bimap (inlined): canonical prefix -> canonical URI prefix
+            elif op(m) == "attr" and m[1] == conv and m[2] == "prefix_map":
+                ob.violate(fn.qualname, where(fn, ev.line), "write_tsv writes converter.prefix_map, which also holds every CURIE-prefix synonym: the file has several rows with the same URI prefix and does not load as a strict prefix map", witness="a record with a prefix synonym yields two rows sharing one URI prefix -> DuplicateURIPrefixes on reading", detail="rows-include-synonyms")
+            elif op(m) == "attr" and m[1] == conv and m[2] in ("reverse_prefix_map", "reverse_bimap"):
+                ob.violate(fn.qualname, where(fn, ev.line), f"write_tsv writes converter.{m[2]}: columns are (URI prefix, prefix)", detail="columns")
+            else:
+                ob.undecide(f"row source `{show(src)[:50]}` not recognised")
+        else:
+            ob.undecide(f"row source `{show(src)[:50] if src else None}` not recognised")
+    if not body and not bulk:
         ob.violate(fn.qualname, fn.where, "write_tsv writes no data rows", detail="no-rows")
     for c, ev, ctx in body[:1]:
         lp = ctx.loops[0]
@@ -361,3 +390,49 @@ def d5(cx: Cx, ob: Ob) -> None:
             ob.violate(fn.qualname, where(fn, ev.line), f"row is `{show(c[2][0])[:50] if c[2] else '?'}`, not (record.prefix, record.uri_prefix)", detail="columns")
         if s.must_guards(ev):
             ob.violate(fn.qualname, where(fn, ev.line), "rows are written only conditionally", detail="filter")
+
+
+@obligation("C14-D6", "SHACL reader roles: from_shacl's query binds sh:prefix / sh:namespace / sh:pattern to the variables it selects, in the order the rows are unpacked into Record(prefix, uri_prefix, pattern)", floor=1)
+def d6(cx: Cx, ob: Ob) -> None:
+    fn = cx.fn(f"{CONV}.from_shacl", ob.id)
+    s = cx.summary(fn, ob.id)
+    queries = [x[1] for t, _, _ in s.all_terms() for x in subterms(t) if is_const(x) and isinstance(x[1], str) and "SELECT" in x[1]]
+    if not queries:
+        ob.undecide("from_shacl: SPARQL query constant not found")
+        return
+    q = queries[0]
+    sel = re.search(r"SELECT\s+((?:\?\w+\s*)+)", q)
+    order = re.findall(r"\?(\w+)", sel.group(1)) if sel else []
+    binds = dict((term, var) for term, var in re.findall(r"sh:(prefix|namespace|pattern)\s+\?(\w+)", q))
+    ob.site(f"{fn.where} {fn.qualname}", f"SELECT {order}; bindings {binds}")
+    if set(binds) != {"prefix", "namespace", "pattern"}:
+        ob.violate(fn.qualname, fn.where, f"from_shacl's query binds only {sorted(binds)}", detail="bindings")
+        return
+    want = [binds["prefix"], binds["namespace"], binds["pattern"]]
+    if order != want:
+        ob.violate(fn.qualname, fn.where, f"from_shacl selects {order} but unpacks rows as (prefix, uri_prefix, pattern) = {want}: the roles are permuted", detail="select-order")
+    if not re.search(r"OPTIONAL\s*\{[^}]*sh:pattern", q):
+        ob.violate(fn.qualname, fn.where, "sh:pattern is not OPTIONAL in from_shacl's query: prefixes written without a pattern are not read back", detail="pattern-required")
+    # record construction
+    found = False
+    for t, ctx in s.returns():
+        for x in subterms(t):
+            if op(x) == "comp" and op(x[2]) == "call" and op(x[2][1]) == "cls" and x[2][1][1].endswith(".Record"):
+                found = True
+                tgt = x[3][0][0]
+                kw = dict(x[2][3])
+                if op(tgt) != "tuple" or len(tgt[1]) != 3:
+                    ob.undecide("from_shacl row target is not a 3-tuple")
+                    continue
+                a, b, c = tgt[1]
+                def strip_str(v):
+                    return v[2][0] if op(v) == "call" and v[1] == ("builtin", "str") and len(v[2]) == 1 else v
+                if strip_str(kw.get("prefix")) != a or strip_str(kw.get("uri_prefix")) != b:
+                    ob.violate(fn.qualname, fn.where, "from_shacl builds Record(prefix, uri_prefix) from the wrong row positions", detail="record-roles")
+                pv = kw.get("pattern")
+                if pv is None or not any(y == c for y in subterms(pv)):
+                    ob.violate(fn.qualname, fn.where, "from_shacl does not read the pattern into the Record", detail="pattern-role")
+                if x[3][0][2]:
+                    ob.violate(fn.qualname, fn.where, "from_shacl filters the declared prefixes", detail="filter")
+    if not found:
+        ob.undecide("from_shacl: record construction not recognised")
